@@ -338,6 +338,34 @@ example : (runL diamond none (init diamond)
 /-- the measure of `terminates` on the diamond: no schedule has more than 54 steps (the complete run above has 46) -/
 example : mu diamond (init diamond) = 54 ∧ diamondRun.length = 46 := by decide
 
+/-- non-vacuity for `exact_counts_on_success` on the ignored-node path: 1 depends on 0, the root selection keeps only 1;
+0 goes through the whole life cycle without its visitor being entered, 1 is visited exactly once -/
+def chainSkip : Graph :=
+  { verts := [0, 1], pre := fun v => if v = 1 then [0] else [], post := fun v => if v = 0 then [1] else [],
+    skip := fun v => v == 0 }
+
+example : GraphOK chainSkip :=
+  ⟨by decide, by decide, by decide, by decide, by decide, ⟨fun v => v, by decide⟩⟩
+
+example : (runL chainSkip (some 1) (init chainSkip)
+    [.schedNext .M 0, .ready .M, .enter .M, .spawn .M, .schedEnd .M, .wBegin 0, .wDone 0, .wSend 0, .wExit 0,
+     .cRecv, .schedNext .C 1, .ready .C, .enter .C, .spawn .C, .schedEnd .C,
+     .wBegin 1, .wReturn 1 false, .wDone 1, .wSend 1, .wExit 1, .cRecv]).map
+    (fun s => (decide (terminal s) && s.firstErr.isNone && !s.extCancelled && decide (s.status 0 = .visited),
+               (starts s.log).count 0, (starts s.log).count 1, s.received))
+    = some (true, 0, 1, [1, 0]) := by decide
+
+/-- non-vacuity for the third alternative of `progress_internal`: with the only visitor in progress nothing else can
+move (coordinator at `select` on an empty channel, caller in `eg.Wait`) — `walk` waits for the visitor and only for it -/
+example : (runL chainSkip none (init chainSkip)
+    [.schedNext .M 0, .ready .M, .enter .M, .spawn .M, .schedEnd .M, .wBegin 0, .wDone 0, .wSend 0, .wExit 0,
+     .cRecv, .schedNext .C 1, .ready .C, .enter .C, .spawn .C, .schedEnd .C, .wBegin 1]).map
+    (fun s => (decide (terminal s), wpc s.workers 1,
+               (step? chainSkip none s .cRecv).isSome || (step? chainSkip none s .cCtxDone).isSome ||
+               (step? chainSkip none s (.schedEnd .C)).isSome || (step? chainSkip none s (.wDone 1)).isSome,
+               (step? chainSkip none s (.wReturn 1 true)).isSome))
+    = some (false, some .running, false, true) := by decide
+
 end CV.Trav
 
 /-! ## Graph construction: cycles are refused before any visit, the project is not modified
